@@ -389,6 +389,7 @@ package ucfg
 //@ props C12 C20
 //@ pure
 //@ requires opts != nil
+//@ ensures [naming !unproved] result == pathFor(in, opts)
 //@ ensures [key] pathKey(result) == in
 //@ ensures [nonempty] len(result.fields) >= 1
 //@ ensures [nonnil] forall j int :: 0 <= j && j < len(result.fields) ==> result.fields[j] != nil
@@ -443,6 +444,7 @@ package ucfg
 //@ pure
 //@ ensures [naming_ok !unproved] (err == nil) == pathOk(p, cfg)
 //@ ensures [naming_val !unproved] err == nil ==> r == pathVal(p, cfg)
+//@ ensures [naming_missing !unproved] err != nil ==> (reasonOf(err) == ErrMissing) == pathMissing(p, cfg)
 //@ ensures [err_nil] err != nil ==> r == nil
 //@ requires cfg != nil && len(p.fields) >= 1
 //@ requires forall j int :: 0 <= j && j < len(p.fields) ==> p.fields[j] != nil
@@ -1369,6 +1371,7 @@ package ucfg
 
 //@ iface Error.Reason :: self -> r
 //@ pure
+//@ ensures r == reasonOf(self)
 
 // pathOfCtx(ctx, sep): the path context.path computes for a context value in the (constant) heap of one read;
 // the clauses are the unfolding of the statement: the names and indices from the root down, joined by sep.
@@ -1459,9 +1462,9 @@ package ucfg
 //@ ensures typeof(elem) == cfgSub ==> metaof(elem) == old(metaof(elem))
 
 //@ func isNil :: v -> r
-//@ trusted
+//@ props C13 C12
 //@ pure
-//@ ensures v == nil ==> r
+//@ ensures [spec] r == (v == nil || typeof(v) == *cfgNil)
 
 //@ func (cfgPath).SetValue :: p, cfg, opt, val -> err
 //@ props C12 C07 C14
@@ -1684,6 +1687,7 @@ package ucfg
 //@ props C04 C07
 //@ sweep
 //@ modifies *
+//@ rvwrites pointeeStore()
 //@ ensures [naming !unproved] validators == nil ==> (result == nil) == recValid(val)
 
 //@ func reifyDoArray :: opts, to, elemT, start, val, arr -> r, err
@@ -1757,11 +1761,6 @@ package ucfg
 //@ ensures [field_of_struct] err == nil && !skip ==> info.value == rvField(structVal, fieldIdx) && rvRootOf(info.value) == rvRootOf(structVal)
 //@ ensures [policy_from_tag] err == nil && !skip && info.tagOptions.cfgHandling != cfgDefaultHandling ==> info.options.configValueHandling == info.tagOptions.cfgHandling
 //@ ensures [policy_inherited] err == nil && !skip && info.tagOptions.cfgHandling == cfgDefaultHandling ==> info.options.configValueHandling == old(opts.configValueHandling)
-
-//@ func reifyGetField :: cfg, opts, name, to, fieldType -> result
-//@ props C07
-//@ sweep
-//@ rvwrites rvRootOf(to), pointeeStore()
 
 //@ func reifyInto :: opts, to, from -> result
 //@ trusted
@@ -2056,3 +2055,26 @@ package ucfg
 //@ nonil
 //@ pure
 //@ rvwrites nothing
+
+// ---------------------------------------------------------------- C13: settings absent from the configuration
+//@ ghost func pathFor(in string, opts *options) cfgPath
+//@ ghost func pathMissing(p cfgPath, cfg *Config) bool
+//@ ghost func hasInit(t reflect.Type) bool
+
+//@ func hasInitDefaults :: t -> r
+//@ props C07
+//@ sweep
+//@ rvwrites nothing
+//@ ensures [naming !unproved] r == hasInit(t)
+
+// absent: the configuration has no value for the field's name (missing, or an explicit null)
+//@ pred absent(cfg *Config, name string, o *options) := (pathOk(pathFor(name, o), cfg) && (pathVal(pathFor(name, o), cfg) == nil || typeof(pathVal(pathFor(name, o), cfg)) == *cfgNil)) || (!pathOk(pathFor(name, o), cfg) && pathMissing(pathFor(name, o), cfg))
+
+// reifyGetField: a field for which the configuration has no setting keeps its value (pointer fields and
+// non-struct fields without InitDefaults): the storage behind the field's handle is not written.
+//@ func reifyGetField :: cfg, opts, name, to, fieldType -> result
+//@ props C13 C07
+//@ sweep
+//@ requires cfg != nil && opts.opts != nil
+//@ rvwrites rvRootOf(to), pointeeStore()
+//@ ensures [absent_untouched] result == nil && old(absent(cfg, name, opts.opts)) && rvRootOf(to) != pointeeStore() && (rtKind(fieldType) == 22 || (rtKind(fieldType) != 25 && !hasInit(fieldType))) ==> rvver(rvRootOf(to)) == old(rvver(rvRootOf(to)))
